@@ -772,9 +772,8 @@ class _SliceMeta(type):
             a = (None, a[0], None)
         elif len(a) == 2:
             a = (a[0], a[1], None)
-        if any(is_sym(x) for x in a):
-            return SliceProxy(*a)
-        return _builtins.slice(*a)
+        # always a proxy: its .indices() accepts a symbolic length (the builtin's does not)
+        return SliceProxy(*a)
 
 
 class SymSliceType(metaclass=_SliceMeta):
